@@ -290,10 +290,11 @@ def rule_sh2(ctx):
 # AX1: axis discipline in vectorised code
 
 
-AXIS_FUNCS = {"np.flip": 1, "np.sort": 1, "np.argsort": 1, "np.roll": 2,
-              "np.cumsum": 1, "np.cumprod": 1, "np.squeeze": 1,
-              "np.diff": 2}
-AXIS_METHODS = {"sort", "argsort", "squeeze", "cumsum"}
+# np.sort / np.argsort / np.diff default to the LAST axis (safe); the calls
+# below default to all axes / the flattened array
+AXIS_FUNCS = {"np.flip": 1, "np.roll": 2, "np.cumsum": 1, "np.cumprod": 1,
+              "np.squeeze": 1}
+AXIS_METHODS = {"squeeze", "cumsum"}
 # functions whose argument is one-dimensional by construction, or that belong
 # to a not-applicable property (reason frozen per entry)
 AX1_EXEMPT = {
@@ -308,10 +309,10 @@ def rule_ax1(ctx, rels):
     from ..project import norm_stmt
     r = ctx.r
     r.rule("AX1", "in vectorised code a reordering / cumulative / squeezing "
-                  "NumPy call (np.flip, np.sort, np.argsort, np.roll, "
-                  "np.cumsum, np.squeeze, .sort()) names its axis: without "
-                  "one it acts on every axis (or the flattened array) and "
-                  "mixes the units of a composite")
+                  "NumPy call whose default is every axis / the flattened "
+                  "array (np.flip, np.roll, np.cumsum, np.squeeze) names its "
+                  "axis; np.sort / np.argsort default to the last axis and "
+                  "are not concerned")
     n = 0
     for rel in rels:
         m = ctx.p.module_by_rel(rel)
@@ -357,7 +358,7 @@ def rule_ax1(ctx, rels):
                         "well as within them, so values are exchanged "
                         "between different units of the array",
                         instance=inst)
-    r.require_count("AX1", "axis-sensitive calls in scope", n, 5)
+    r.require_count("AX1", "axis-sensitive calls in scope", n, 3)
 
 
 # ---------------------------------------------------------------------------
